@@ -48,6 +48,8 @@ func (m *matSpec) typeName() string {
 		return "HGMaterial"
 	case "refract":
 		return "RefractMaterial"
+	case "sheet":
+		return "AsymMaterial(caller-defined)"
 	default:
 		return "JoinedMaterial"
 	}
@@ -63,6 +65,8 @@ func (m *matSpec) lib() render3d.Material {
 		return &render3d.HGMaterial{G: m.G, ScatterColor: m.Scatter, IgnoreNormals: m.IgnoreNormals}
 	case "refract":
 		return &render3d.RefractMaterial{IndexOfRefraction: m.IOR, RefractColor: m.Refract, SpecularColor: m.Specular}
+	case "sheet":
+		return &sheetMaterial{LambertMaterial: &render3d.LambertMaterial{DiffuseColor: m.Diffuse}}
 	default:
 		j := &render3d.JoinedMaterial{Probs: append([]float64{}, m.Probs...)}
 		for _, s := range m.Subs {
@@ -82,6 +86,8 @@ func (m *matSpec) sig() string {
 		return fmt.Sprintf("HG(%g,%v)", m.G, m.IgnoreNormals)
 	case "refract":
 		return fmt.Sprintf("R(%g,s=%v)", m.IOR, m.Specular != C3{})
+	case "sheet":
+		return "Sheet"
 	default:
 		s := "J["
 		for i, x := range m.Subs {
@@ -160,6 +166,12 @@ func (m *matSpec) lobesOf(n, fixed ref.V, wantSource bool) lobeInfo {
 		li.cuts = append(li.cuts, ref.Plane(r))
 		if (m.Diffuse != C3{}) {
 			li.add((&matSpec{Kind: "lambert"}).lobesOf(n, fixed, wantSource))
+		}
+	case "sheet":
+		if wantSource {
+			li.add((&matSpec{Kind: "lambert"}).lobesOf(n, fixed, true))
+		} else {
+			li.lobes = append(li.lobes, ref.Lobe{Axis: n, TEdges: ref.UniformEdges(nTBins), NPhi: nPhiBins, Name: "uniform"})
 		}
 	case "hg":
 		g, neg := hgEffective(m.G)
@@ -339,6 +351,9 @@ func randMat(rng *rand.Rand, kind string, scale float64, depth int) *matSpec {
 		}
 		return m
 	}
+	if kind == "sheet" {
+		return &matSpec{Kind: kind, Diffuse: randColor(rng, scale)}
+	}
 	// joined
 	k := 2 + rng.Intn(3)
 	m := &matSpec{Kind: "joined"}
@@ -369,6 +384,8 @@ func randMat(rng *rand.Rand, kind string, scale float64, depth int) *matSpec {
 		kd := kinds[rng.Intn(len(kinds))]
 		if depth == 0 && rng.Intn(8) == 0 {
 			kd = "joined"
+		} else if rng.Intn(7) == 0 {
+			kd = "sheet"
 		}
 		sub := randMat(rng, kd, scale*shares[i]/sum, depth+1)
 		m.Subs = append(m.Subs, sub)
@@ -376,3 +393,20 @@ func randMat(rng *rand.Rand, kind string, scale float64, depth int) *matSpec {
 	}
 	return m
 }
+
+// sheetMaterial is a caller-defined AsymMaterial: a matte surface (everything about sources comes
+// from the embedded LambertMaterial) whose destination directions are drawn uniformly from the
+// whole sphere, with the density that belongs to that sampler. Its destination sampling is NOT the
+// reverse of its source sampling, which is what the AsymMaterial interface exists for.
+type sheetMaterial struct {
+	*render3d.LambertMaterial
+}
+
+func (s *sheetMaterial) SampleDest(gen *rand.Rand, normal, source model3d.Coord3D) model3d.Coord3D {
+	z := 2*gen.Float64() - 1
+	phi := 2 * math.Pi * gen.Float64()
+	r := math.Sqrt(math.Max(0, 1-z*z))
+	return model3d.XYZ(r*math.Cos(phi), r*math.Sin(phi), z)
+}
+
+func (s *sheetMaterial) DestDensity(normal, source, dest model3d.Coord3D) float64 { return 1 }
